@@ -15,7 +15,7 @@ RULE = ('JSON values generated recursively (null, booleans, integers incl. huge,
         '0.000001, each string character raw or as one of its JSON escapes (\\" \\\\ \\/ \\b \\f \\n \\r \\t \\uXXXX, '
         'surrogate pairs for astral characters), arbitrary JSON white space; content restricted to what is valid in both '
         'JSON and an ES5 string literal. Contexts: var x = V; x = V; var x = V inside function f(){}; two bindings in one '
-        'statement; x fold_ops in {False, True}. Oracle: ast_to_dict(parse(ctx(V)), fold_ops) holds under the name '
+        'statement; the same name bound twice by var then assignment and by assignment then var (the last binding is what the dictionary holds); x fold_ops in {False, True}. Oracle: ast_to_dict(parse(ctx(V)), fold_ops) holds under the name '
         'exactly json.loads(V) by typed equality (bool/int/float distinguished, sign of zero, strings by code point) '
         'and the dictionary has exactly the expected keys. non-trivial = nesting depth >= 2, or a negative/fractional '
         'number, or an escaped character; distinct by (text, context, fold_ops)')
@@ -152,7 +152,7 @@ def json_value(draw, depth=0):
     return ('[' + body + ']') if k == 'arr' else ('{' + body + '}'), maxd + 1, inter
 
 
-CONTEXTS = ['var', 'assign', 'function', 'two']
+CONTEXTS = ['var', 'assign', 'function', 'two', 'rebind', 'rebind_var']
 
 
 def build(ctx, v, v2):
@@ -162,6 +162,11 @@ def build(ctx, v, v2):
         return 'x = %s;' % v, lambda d: d, ['x']
     if ctx == 'function':
         return 'function f() { var x = %s; }' % v, None, ['f']
+    if ctx == 'rebind':
+        # the same name bound twice: the dictionary holds what the last binding statement gives
+        return 'var x = %s; x = %s;' % (v, v2), lambda d: d, ['x']
+    if ctx == 'rebind_var':
+        return 'x = %s; var x = %s;' % (v, v2), lambda d: d, ['x']
     return 'var x = %s, y = %s;' % (v, v2), lambda d: d, ['x', 'y']
 
 
@@ -193,6 +198,8 @@ def _check(acc, opens, ctx, v, v2, fold, top=False):
         expect = {'f': [[], {'x': want}]}
     elif ctx == 'two':
         expect = {'x': want, 'y': want2}
+    elif ctx in ('rebind', 'rebind_var'):
+        expect = {'x': want2}
     else:
         expect = {'x': want}
     if not typed_eq(d, expect):
@@ -226,7 +233,7 @@ def run_shard(shard):
     def body(x):
         (v, d, i), (v2, d2, i2), ctx, fold = x
         check(acc, opens, ctx, v, v2, fold)
-        acc.case((v, v2 if ctx == 'two' else None, ctx, fold), d >= 2 or i, {'value': v, 'context': ctx, 'fold_ops': fold})
+        acc.case((v, v2 if ctx in ('two', 'rebind', 'rebind_var') else None, ctx, fold), d >= 2 or i, {'value': v, 'context': ctx, 'fold_ops': fold})
         acc.label('ctx_' + ctx)
         acc.label('depth_%d' % min(d, 5))
         acc.label('fold_%s' % fold)
